@@ -178,6 +178,18 @@ def _jsonable(v):
     return repr(v)
 
 
+# cooperative truncation of long native sweeps inside one path: a harness asks sweep_should_stop() in its outer native loop;
+# once the path has used its share of the job budget the sweep ends early and the space is reported as NOT exhausted
+_PATH_CLOCK = {"start": 0.0, "soft": 1e18, "truncated": False}
+
+
+def sweep_should_stop() -> bool:
+    if time.perf_counter() - _PATH_CLOCK["start"] > _PATH_CLOCK["soft"]:
+        _PATH_CLOCK["truncated"] = True
+        return True
+    return False
+
+
 class HardTimeout(BaseException):
     """a single path ran far beyond the whole job's budget (BaseException: no harness or code under test catches it)"""
 
@@ -219,7 +231,9 @@ def explore(
     cpu0 = time.process_time()
     root = RootNode()
     import signal
-    hard_limit = float(hard_limit_s) if hard_limit_s else float(budget_s) + 60.0
+    # the watchdog is only meant for code that does not terminate: long native sweeps end themselves (sweep_should_stop)
+    hard_limit = float(hard_limit_s) if hard_limit_s else 3.0 * float(budget_s) + 600.0
+    truncated_paths = 0
     try:
         old_handler = signal.signal(signal.SIGALRM, _hard_alarm)
     except ValueError:          # not in the main thread: no watchdog
@@ -244,6 +258,9 @@ def explore(
         breakout = False
         if old_handler is not None:
             signal.setitimer(signal.ITIMER_REAL, hard_limit)
+        _PATH_CLOCK["start"] = time.perf_counter()
+        _PATH_CLOCK["soft"] = max(45.0, 0.5 * float(budget_s))
+        _PATH_CLOCK["truncated"] = False
         try:
           with condition_parser([AnalysisKind.PEP316]), Patched(), COMPOSITE_TRACER, NoTracing(), StateSpaceContext(space):
               try:
@@ -307,6 +324,8 @@ def explore(
         finally:
             if old_handler is not None:
                 signal.setitimer(signal.ITIMER_REAL, 0)
+        if _PATH_CLOCK["truncated"]:
+            truncated_paths += 1
         if breakout:
             res.stop_reason = "counterexample" if res.counterexample else "error"
             break
@@ -316,6 +335,10 @@ def explore(
             break
     if old_handler is not None:
         signal.signal(signal.SIGALRM, old_handler)
+    if truncated_paths and not res.counterexample and not res.error:
+        # some paths ended their native sweep early: the engine's exhaustion certificate does not cover those sweeps
+        res.exhausted = False
+        res.stop_reason = f"{res.stop_reason}+{truncated_paths}-truncated-sweeps"
     c1, t1s, u1 = SolverStats.snapshot()
     res.solver_checks = c1 - c0
     res.solver_time_s = round(t1s - t0s, 3)
